@@ -165,7 +165,7 @@ def body(case, env):
         if not add and f == 'large_file': continue                          # set automatically whenever an inode (e.g. the resize inode) exceeds 2 GiB
         if not add and f == 'bigalloc' and case['cluster']: continue
         if not add and f == 'meta_bg' and 'resize_inode' not in feats: continue   # same automatic switch (descriptors would not fit the group otherwise)
-        if add and f == 'orphan_file' and 'has_journal' not in feats: continue
+        if add and f == 'orphan_file' and ('has_journal' not in feats or final.get('has_journal') is False): continue
         if add and f == 'metadata_csum_seed' and 'metadata_csum' not in feats: continue   # the seed feature only exists together with metadata_csum    # mke2fs drops orphan_file (an ext4 default) when there is no journal
         if not add and f in ('quota', 'project') and case['quotatype']: continue   # -E quotatype= asks for the quota types (prjquota implies project)        # the harness itself adds -C
         if add and f not in feats and f not in said and not case['rev0']:
